@@ -48,7 +48,11 @@
 (*          would generate it only as the *last* call of a history; with   *)
 (*          it the histories "query, then edit, then print" are explored;  *)
 (*          with StickyQueries mutators keep lastq, so that any number of  *)
-(*          edits can follow the query                                     *)
+(*          edits can follow the query, and lastq also records *where* in  *)
+(*          the history the query stood: "query, replace" and "replace,    *)
+(*          query" reach the same object graph, but only the first order   *)
+(*          lets a cache filled by the query go stale -- TLC keeps one     *)
+(*          representative history per state, so the two must differ       *)
 (*   hist   the calls made so far (observation only; with out hidden by    *)
 (*          VIEW so that states are identified by the object graph)        *)
 (*                                                                         *)
@@ -572,33 +576,36 @@ ParseW(src) ==
 ----------------------------------------------------------------------------
 (* The state machine *)
 
+NoQuery == <<"", 0>>
 Room == MaxCalls = 0 \/ Len(hist) < MaxCalls
 
 Mutate(W(_), call) ==     \* W = function world -> world
   /\ Room
   /\ gl' = W(World).gl /\ fn' = W(World).fn /\ md' = W(World).md
   /\ twin' = W(twin)
-  /\ parsed' = FALSE /\ lastq' = IF StickyQueries THEN lastq ELSE ""
+  /\ parsed' = FALSE /\ lastq' = IF StickyQueries THEN lastq ELSE NoQuery
   /\ hist' = Append(hist, call)
   /\ UNCHANGED out
 
 Observe(r, call) ==       \* r = [w, out] for the state; the twin skips observers
   /\ Room
   /\ gl' = r.w.gl /\ fn' = r.w.fn /\ md' = r.w.md /\ out' = r.out
-  /\ lastq' = IF TrackQueries /\ r.w = World THEN call.op ELSE IF StickyQueries THEN lastq ELSE ""
+  /\ lastq' = IF TrackQueries /\ r.w = World
+              THEN <<call.op, IF StickyQueries THEN Len(hist) + 1 ELSE 0>>
+              ELSE IF StickyQueries THEN lastq ELSE NoQuery
   /\ hist' = Append(hist, call)
   /\ UNCHANGED <<twin, parsed>>
 
 EmptyWorld == [gl |-> EmptyGl, fn |-> <<>>, md |-> <<>>]
 Init == /\ gl = EmptyGl /\ fn = <<>> /\ md = <<>> /\ twin = EmptyWorld
-        /\ out = Ok(<<>>, <<>>, <<>>) /\ parsed = FALSE /\ lastq = "" /\ hist = <<>>
+        /\ out = Ok(<<>>, <<>>, <<>>) /\ parsed = FALSE /\ lastq = NoQuery /\ hist = <<>>
 
 ParseText ==
   /\ hist = <<>> /\ MaxSrc > 0
   /\ \E src \in Sources :
        /\ Len(ParseInstall(src).funcs) <= MaxFuncs
        /\ LET w == ParseW(src) IN
-          /\ gl' = w.gl /\ fn' = w.fn /\ md' = w.md /\ twin' = w /\ parsed' = TRUE /\ lastq' = ""
+          /\ gl' = w.gl /\ fn' = w.fn /\ md' = w.md /\ twin' = w /\ parsed' = TRUE /\ lastq' = NoQuery
           /\ hist' = <<[op |-> "ParseText", src |-> src]>>
           /\ UNCHANGED out
 
